@@ -38,6 +38,24 @@ type LintFacts struct {
 	MapRange             []string // range over a map whose body feeds string building
 	Dynamic              []string // interface method calls not resolved (module-internal interfaces)
 	RiskSites            int
+	PanicSites           []string // unchecked type assertions, explicit panics, integer division by a variable (keys, not positions)
+	ClosureFns           []string `json:"-"` // module functions reachable from the lint (funcKey)
+}
+
+func shortQual(p *types.Package) string { return p.Name() }
+
+// funcKey: package-relative name of a function inside the module, stable under edits elsewhere in the file
+func funcKey(f *ssa.Function) string {
+	return strings.ReplaceAll(f.RelString(nil), "github.com/zmap/zlint/v3/", "")
+}
+
+func addPanicSite(lf *LintFacts, k string) {
+	for _, x := range lf.PanicSites {
+		if x == k {
+			return
+		}
+	}
+	lf.PanicSites = append(lf.PanicSites, k)
 }
 
 type factsProg struct {
@@ -293,7 +311,10 @@ func (fp *factsProg) analyse(name, kind, typeName string, roots []*ssa.Function,
 	var cellUnknown []string
 	usesCell := false
 	reads := map[string]bool{}
+	var uncheckedAsserts [][2]string
+	checkedTypes := map[string]bool{}
 	for _, f := range fns {
+		lf.ClosureFns = append(lf.ClosureFns, funcKey(f))
 		isInit := f.Name() == "init" || strings.HasPrefix(f.Name(), "init#")
 		for _, b := range f.Blocks {
 			for _, ins := range b.Instrs {
@@ -364,9 +385,25 @@ func (fp *factsProg) analyse(name, kind, typeName string, roots []*ssa.Function,
 					}
 				case *ssa.IndexAddr, *ssa.Index, *ssa.Slice, *ssa.TypeAssert:
 					if ta, ok := x.(*ssa.TypeAssert); ok && ta.CommaOk {
+						checkedTypes[types.TypeString(ta.AssertedType, shortQual)] = true
 						break
 					}
 					lf.RiskSites++
+					if ta, ok := x.(*ssa.TypeAssert); ok && !isInit {
+						uncheckedAsserts = append(uncheckedAsserts, [2]string{funcKey(f), types.TypeString(ta.AssertedType, shortQual)})
+					}
+				case *ssa.Panic:
+					if !isInit {
+						addPanicSite(&lf, "panic|"+funcKey(f))
+					}
+				case *ssa.BinOp:
+					if (x.Op == token.QUO || x.Op == token.REM) && !isInit {
+						if bt, ok := x.Y.Type().Underlying().(*types.Basic); ok && bt.Info()&types.IsInteger != 0 {
+							if _, isConst := x.Y.(*ssa.Const); !isConst {
+								addPanicSite(&lf, "intdiv|"+funcKey(f))
+							}
+						}
+					}
 				case *ssa.Range:
 					if _, ok := x.X.Type().Underlying().(*types.Map); ok {
 						lf.MapRange = append(lf.MapRange, fp.pos(x.Pos())+" in "+f.Name())
@@ -437,6 +474,15 @@ func (fp *factsProg) analyse(name, kind, typeName string, roots []*ssa.Function,
 	}
 	sort.Strings(dynamic)
 	lf.Dynamic = uniq(dynamic)
+	// an unchecked assertion x.(T) is keyed together with whether the same closure also asserts T with the comma-ok form
+	// (the usual shape: CheckApplies tests the type, Execute relies on it)
+	for _, ua := range uncheckedAsserts {
+		guard := "type-not-tested-elsewhere"
+		if checkedTypes[ua[1]] {
+			guard = "type-tested-with-comma-ok-in-closure"
+		}
+		addPanicSite(&lf, "typeassert|"+ua[0]+"|"+ua[1]+"|"+guard)
+	}
 	return lf
 }
 
